@@ -85,6 +85,11 @@ func (x *Exec) walkWithInvariant(c *CallCtx, d collDesc, h int, fn *ssa.Function
 		}
 	}
 	st.Assume(and(app(">=", wn, "0"), app("<", wn, two63)))
+	if rng.Prefix == "" {
+		// the number of entries of a whole-map walk is the cardinality of the map
+		card := e.DeclFun("card."+sanitize(d.sort), []string{d.sort}, "Int")
+		st.Assume(eq(wn, app(card, m0)))
+	}
 	st.Assume(fmt.Sprintf("(forall ((t Int)) (! (=> (and (<= 0 t) (< t %s)) (and %s %s)) :pattern ((%s t))))", wn,
 		isSomeT(app("select", m0, app(wkey, "t")), optS), inRange(app(wkey, "t")), wkey))
 	st.Assume(fmt.Sprintf("(forall ((k %s)) (! (=> (and %s %s) (and (<= 0 (%s k)) (< (%s k) %s) (= (%s (%s k)) k))) :pattern ((%s k)) :pattern ((select %s k))))", ks,
@@ -132,6 +137,8 @@ func (x *Exec) walkWithInvariant(c *CallCtx, d collDesc, h int, fn *ssa.Function
 			st.cells[cnum] = x.freshTV("walkcell", tv.Ty, st)
 		}
 	}
+	x.bindState = st
+	x.bindFree(fn, free)
 	ws, unk := x.fnWrites(fn, map[*ssa.Function]bool{})
 	x.havocGhost(st, ws, unk)
 	i := e.FreshConst("wi", "Int")
